@@ -93,15 +93,85 @@ func (s *LSpec) buildTerm(n *oNFA, t *LTerm) (int, int) {
 	return b, e
 }
 
-func (s *LSpec) buildMode(m *LMode) *oNFA {
-	n := &oNFA{}
-	n.start = n.newState()
+// modeSim simulates every rule of a mode separately. A rule containing a non-greedy operator
+// matches only the SHORTEST words of its language: once it has accepted, it is dead.
+type modeSim struct {
+	nfas []*oNFA
+	ng   []bool
+}
+
+func (s *LSpec) hasNG(e *LExpr) bool {
+	for _, a := range e.Alts {
+		for _, t := range a {
+			if t.Card == "*?" || t.Card == "+?" {
+				return true
+			}
+			if t.Kind == LGroup && s.hasNG(t.Group) {
+				return true
+			}
+			if t.Kind == LRef && s.hasNG(s.Macros[t.Ref]) {
+				return true
+			}
+		}
+	}
+	return false
+}
+
+func (s *LSpec) buildMode(m *LMode) *modeSim {
+	ms := &modeSim{}
 	for i, ru := range m.Rules {
+		n := &oNFA{}
+		n.start = n.newState()
 		b, e := s.buildExpr(n, ru.Expr)
 		n.eps[n.start] = append(n.eps[n.start], b)
 		n.accept[e] = i
+		ms.nfas = append(ms.nfas, n)
+		ms.ng = append(ms.ng, s.hasNG(ru.Expr))
 	}
-	return n
+	return ms
+}
+
+type simState []map[int]bool
+
+func (ms *modeSim) initial() simState {
+	st := make(simState, len(ms.nfas))
+	for i, n := range ms.nfas {
+		st[i] = n.closure(map[int]bool{n.start: true})
+	}
+	return st
+}
+
+func (ms *modeSim) accepts(st simState, i int) bool {
+	return st[i] != nil && ms.nfas[i].winner(st[i]) >= 0
+}
+
+// step advances every live rule; a non-greedy rule that accepts now does not continue.
+func (ms *modeSim) step(st simState, c int) (simState, bool) {
+	nx := make(simState, len(st))
+	alive := false
+	for i, n := range ms.nfas {
+		if len(st[i]) == 0 {
+			continue
+		}
+		if ms.ng[i] && ms.accepts(st, i) {
+			continue
+		}
+		t := n.step(st[i], c)
+		if len(t) > 0 {
+			nx[i] = t
+			alive = true
+		}
+	}
+	return nx, alive
+}
+
+func (ms *modeSim) winner(st simState) int {
+	for i := range ms.nfas {
+		if ms.accepts(st, i) {
+			return i
+		}
+	}
+	return -1
 }
 
 func (n *oNFA) closure(set map[int]bool) map[int]bool {
@@ -163,7 +233,7 @@ func decodeInput(b []byte) []dRune {
 
 // RefLex tokenises input by the rule-level definition. Output format = generated package's Lex.
 func (s *LSpec) RefLex(input []byte, tokNum func(int) int, maxToks int) string {
-	nfas := make([]*oNFA, len(s.Modes))
+	nfas := make([]*modeSim, len(s.Modes))
 	for i, m := range s.Modes {
 		nfas[i] = s.buildMode(m)
 	}
@@ -185,11 +255,11 @@ func (s *LSpec) RefLex(input []byte, tokNum func(int) int, maxToks int) string {
 			start = offAt(pos)
 		}
 		n := nfas[mode]
-		set := n.closure(map[int]bool{n.start: true})
+		set := n.initial()
 		p := pos
 		for p < len(rs) {
-			nx := n.step(set, rs[p].r)
-			if len(nx) == 0 {
+			nx, alive := n.step(set, rs[p].r)
+			if !alive {
 				break
 			}
 			set = nx
